@@ -309,3 +309,20 @@ func sortedKeys(m map[string]int) []string {
 	sort.Strings(ks)
 	return ks
 }
+
+// StackOf returns the current goroutine's stack.
+func StackOf() string { return string(debug.Stack()) }
+
+// PanicSig exposes the signature used for class "panic".
+func PanicSig(msg, stack string) string { return panicSig(msg, stack) }
+
+func TrimStack(st string) string { return trimStack(st) }
+
+// IsSimPanic tells harness-level recover() blocks to re-panic the runtime's own control-flow panics.
+func IsSimPanic(p interface{}) bool {
+	switch p.(type) {
+	case violationPanic, abortPanic:
+		return true
+	}
+	return false
+}
